@@ -1,7 +1,7 @@
 """random abstract PROGRAMS for the SPECIFICATION side of the program round trip
 (lean/GoldModel/Props/C06Prog.lean): declarations (class, const, field, proc, func with parameters) and
 statements (assignment, expression statement, return, exit/break/continue, local variable, if/elseif/else,
-while, loop, for with optional step) nested to a random depth are printed to words; the prefix form with
+while, loop, for with optional step, foreach, repeat/until) nested to a random depth are printed to words; the prefix form with
 word indices (`#i`) is later filled with the implementation's own tokens and handed to the Lean spec
 (`progspec` driver mode), whose `Prog.tree` is compared with the tree the implementation built.
 Expressions come from `exspec` (the prefix form of the `exspec` mode), so the tie follows `Ex` as it grows."""
@@ -58,7 +58,7 @@ class Gen:
         self.tag("]")
 
     def stmt(self, depth):
-        c = self.r.below(12 if depth > 0 else 7)
+        c = self.r.below(14 if depth > 0 else 7)
         if c <= 2:
             self.count("assign")
             self.tag("SA"); self.w(self.name()); self.w(self.r.choice(ASSIGN)); self.ex()
@@ -91,6 +91,21 @@ class Gen:
         elif c == 10:
             self.count("loop")
             self.tag("SL"); self.w("loop"); self.stmts(depth - 1); self.w("endloop")
+        elif c == 11:
+            self.count("foreach")
+            self.tag("SX"); self.w("foreach")
+            if self.r.chance(2, 3):
+                exspec.render(self.r, ("bin", 6, "in", ("atom", self.r.choice(NAMES)), exspec.gen(self.r, self.r.below(2))), 8,
+                              self.words, self.prefix, False)
+            else:
+                self.ex()
+            at = len(self.words)
+            self.stmts(depth - 1); self.w("endfor")
+            if self.words[at].lower() == "using":      # `using` right after the header belongs to the header
+                self.words[at] = "tmp"
+        elif c == 12:
+            self.count("repeat")
+            self.tag("SU"); self.w("repeat"); self.stmts(depth - 1); self.w("until"); self.ex()
         else:
             self.count("for")
             self.tag("SF"); self.w("for"); self.w(self.r.choice(NAMES)); self.w("="); self.ex()
